@@ -319,7 +319,12 @@ func NewPublicKeyFromFile(filename string) (*PublicKey, error) {
 	if pubk.N == nil || pubk.Z == nil || pubk.S == nil {
 		return nil, errors.New("public key is missing one of the mandatory elements n, Z, S")
 	}
-	pubk.Params = DefaultSystemParameters[pubk.N.BitLen()]
+	keylength := pubk.N.BitLen()
+	sysparam, ok := DefaultSystemParameters[keylength]
+	if !ok {
+		return nil, fmt.Errorf("unknown keylength %d", keylength)
+	}
+	pubk.Params = sysparam
 	if err = pubk.parseRevocationKey(); err != nil {
 		return nil, err
 	}
